@@ -8,7 +8,7 @@ import numpy as np
 from scipy.optimize import linprog
 
 from rv import sets as S
-from rv.common import user_array
+from rv.common import user_array, digest as _digest
 
 
 # ------------------------------------------------------------------ helpers
@@ -546,6 +546,13 @@ def scen_selector(fset, spec, ev, rng):
 
 
 def build(spec, variant=None):
+    try:
+        return _build(spec, variant)
+    finally:
+        S.ARR[0] = None
+
+
+def _build(spec, variant=None):
     import rsome as rso
     from rsome import dro
     variant = variant or {}
@@ -553,10 +560,15 @@ def build(spec, variant=None):
     B = Built()
     B.arrays = []
 
+    B.digests = []
+
     def arr(a):
         a = user_array(a, variant.get('arr'))
         B.arrays.append(a)
+        B.digests.append(_digest(a))
         return a
+
+    S.ARR[0] = arr
 
     Sn, nz = spec['S'], spec['nz']
     labels = spec['labels']
